@@ -50,7 +50,7 @@ def plan(tier):
 
 @st.composite
 def cases(draw):
-    recipe = draw(gen.problem_recipe(densities=(10, 10, 6)))
+    recipe = draw(gen.problem_recipe(densities=(10, 10, 6), styles=True, offsets=True))
     limit = draw(st.one_of(st.sampled_from([2, 3, 5]), st.integers(20, NMAX[_tier[0]]), st.integers(20, NMAX[_tier[0]]),
                            st.just(NMAX[_tier[0]])))
     params = {"r": draw(gen.r_values),
